@@ -44,6 +44,12 @@ pub enum PredR {
     MixedWalk(u8, u8, u16),
     /// [k]G + pool subgroup point: many different members
     SubWalk(u8, u16),
+    /// a curve point (x, y) moved to the isomorphic curve y^2 = x^3 + b t^6 by (t^2 x, t^3 y):
+    /// off the curve unless t^6 = 1, but of the same order under the b-independent group formulas
+    /// (an order-r point of a twist / isomorphic curve)
+    Rescaled(PointR, FeR),
+    /// G2 only: a point of E(Fq) read as a pair over Fq2 (lies on y^2 = x^3 + 4, not on E')
+    BaseFieldPoint(PointR),
 }
 
 #[derive(Clone, Debug, Serialize, Deserialize, PartialEq, Eq, Hash)]
@@ -63,17 +69,23 @@ fn pred_strategy(group: u8) -> BoxedStrategy<PredCase> {
         8 => any::<u64>().prop_map(PredR::FullSeed),
         5 => (0u8..5, 0u8..3, any::<u16>()).prop_map(|(p, i, k)| PredR::MixedWalk(p, i, k)),
         5 => (0u8..POOL_SUB as u8, any::<u16>()).prop_map(|(s, k)| PredR::SubWalk(s, k)),
+        6 => (point_strategy(true), fq_uniformish()).prop_map(|(p, t)| PredR::Rescaled(p, t)),
+        3 => point_strategy(true).prop_map(PredR::BaseFieldPoint),
     ];
     p.prop_map(move |p| PredCase { group, p }).boxed()
 }
 
 pub trait Embed: SqrtFld {
     fn from_fq2(a: &Fq2) -> Self;
+    fn embed_fq(a: &Fq) -> Self;
     fn other_b(i: u8) -> Self;
 }
 impl Embed for Fq {
     fn from_fq2(a: &Fq2) -> Fq {
         a.c0.clone()
+    }
+    fn embed_fq(a: &Fq) -> Fq {
+        a.clone()
     }
     fn other_b(i: u8) -> Fq {
         Fq::from_u64([24u64, 3, 1, 5, 2, 8][i as usize % 6])
@@ -82,6 +94,9 @@ impl Embed for Fq {
 impl Embed for Fq2 {
     fn from_fq2(a: &Fq2) -> Fq2 {
         a.clone()
+    }
+    fn embed_fq(a: &Fq) -> Fq2 {
+        Fq2::new(a.clone(), Fq::zero())
     }
     fn other_b(i: u8) -> Fq2 {
         let t = [(4u64, 0u64), (0, 4), (3, 3), (1, 1), (4, 5), (24, 24)][i as usize % 6];
@@ -112,6 +127,19 @@ where
         PredR::Swap(p) => match p.build::<G>() {
             Pt::Inf => (G::F::zero(), G::F::one(), true),
             Pt::Aff(x, y) => (y, x, false),
+        },
+        PredR::Rescaled(p, t) => match p.build::<G>() {
+            Pt::Inf => (G::F::zero(), G::F::one(), true),
+            Pt::Aff(x, y) => {
+                let t = G::F::embed_fq(&t.fq());
+                let t = if t.is_zero() { G::F::from_u64(2) } else { t };
+                let t2 = t.sqr();
+                (x.mul(&t2), y.mul(&t2.mul(&t)), false)
+            }
+        },
+        PredR::BaseFieldPoint(p) => match p.build::<G1m>() {
+            Pt::Inf => (G::F::zero(), G::F::one(), true),
+            Pt::Aff(x, y) => (G::F::embed_fq(&x), G::F::embed_fq(&y), false),
         },
         PredR::FullSeed(seed) => {
             let mut w = Words(*seed);
@@ -153,6 +181,8 @@ where
         PredR::FullSeed(_) => "curve:fresh-full-curve-point".to_string(),
         PredR::MixedWalk(_, _, _) => "curve:small-order+[k]G".to_string(),
         PredR::SubWalk(_, _) => "curve:subgroup-walk".to_string(),
+        PredR::Rescaled(p, _) => format!("rescaled-to-isomorphic-curve:{}", if p.in_subgroup() { "order-r" } else { "other-order" }),
+        PredR::BaseFieldPoint(_) => "point-of-E(Fq)-as-pair".to_string(),
     });
     info.class(if want { "member" } else if on { "on-curve-non-member" } else { "off-curve" });
     info.nt_if(on && !inf);
